@@ -525,7 +525,8 @@ class Runner:
             if k['raw'] in seen:
                 continue
             seen.add(k['raw'])
-            print('KNOWN-FINDING: property=%s %s' % (self.pid, k['raw'].split(':', 1)[1].strip()))
+            rest = re.sub(r'^property=\S+\s*', '', k['raw'].split(':', 1)[1].strip())
+            print(('KNOWN-FINDING: property=%s %s' % (self.pid, rest))[:400])
         for j, rp in violations:
             print('VIOLATION property=%s replay=%s' % (self.pid, rp))
         for s in inconclusive:
